@@ -1,20 +1,23 @@
 package c03
 
 import (
+	"bytes"
 	"crypto"
 	"crypto/ecdsa"
 	"crypto/tls"
+	"crypto/x509"
+	"errors"
 	"fmt"
 	"strings"
 	"testing"
 	"time"
 
 	dtls "github.com/pion/dtls/v3"
+	dtlsflight "github.com/pion/dtls/v3/internal/flight"
+	dtlsstate "github.com/pion/dtls/v3/internal/state"
 	"github.com/pion/dtls/v3/pkg/crypto/hash"
 	"github.com/pion/dtls/v3/pkg/crypto/signature"
 	"github.com/pion/dtls/v3/pkg/protocol/handshake"
-	dtlsflight "github.com/pion/dtls/v3/internal/flight"
-	dtlsstate "github.com/pion/dtls/v3/internal/state"
 	"github.com/pion/dtls/v3/zzverif/checks"
 	"github.com/pion/dtls/v3/zzverif/refimpl"
 	"github.com/pion/dtls/v3/zzverif/run"
@@ -82,10 +85,18 @@ func scenarios(p *world.PKI) []scen {
 			if v13 && cr.name != "ecdsa" {
 				continue // DTLS 1.3 with RSA/Ed25519 server keys does not complete even honestly on this tree (see C11 findings)
 			}
-			for _, verify := range []string{"", "skip"} {
-				chainChecked := verify == ""
+			// "skip+pin" / "skip+connpin": chain verification off, the application pins the expected leaf in its
+			// VerifyPeerCertificate / VerifyConnection callback (the WebRTC fingerprint pattern)
+			for _, verify := range []string{"", "skip", "skip+pin", "skip+connpin"} {
+				chainChecked := verify != "skip"
 				base := func() (world.Cfg, world.Cfg) {
-					c := v(world.Cfg{Verify: verify}, v13)
+					c := v(world.Cfg{Verify: strings.TrimSuffix(strings.TrimSuffix(verify, "+pin"), "+connpin")}, v13)
+					switch {
+					case strings.HasSuffix(verify, "+pin"):
+						c.Extra = []dtls.Option{pinPeer(cr.cert.Certificate[0])}
+					case strings.HasSuffix(verify, "+connpin"):
+						c.Extra = []dtls.Option{pinConn(cr.cert.Certificate[0])}
+					}
 					s := v(world.Cfg{Cert: &cr.cert}, v13)
 					if cr.suite != nil && !v13 {
 						c.Suites, s.Suites = cr.suite, cr.suite
@@ -119,7 +130,23 @@ func scenarios(p *world.PKI) []scen {
 					}
 				}, nil)
 				add("signature-corrupted", mustFail, func(c, s *world.Cfg) { s.Cert = world.WithSigner(cr.cert, world.FlipSigner{Signer: signerOf(cr.cert)}) }, nil)
-				add("signature-over-other-data", mustFail, func(c, s *world.Cfg) { s.Cert = world.WithSigner(cr.cert, world.StaleSigner{Signer: signerOf(cr.cert)}) }, nil)
+				add("signature-over-other-data", mustFail, func(c, s *world.Cfg) {
+					s.Cert = world.WithSigner(cr.cert, world.StaleSigner{Signer: signerOf(cr.cert)})
+				}, nil)
+				if cr.name == "ecdsa" {
+					// The victim's (public) certificate first, then a certificate for the attacker's own key, and the
+					// handshake signed with that key: the leaf is the first entry, extra entries prove nothing.
+					for _, order := range []string{"victim-then-own", "victim-then-own-then-victim"} {
+						order := order
+						add("certificate-list["+order+"]-signed-by-own-key", mustFail, func(c, s *world.Cfg) {
+							list := [][]byte{cr.cert.Certificate[0], cr.other.Certificate[0]}
+							if order == "victim-then-own-then-victim" {
+								list = append(list, cr.cert.Certificate[0])
+							}
+							s.Cert = &tls.Certificate{Certificate: list, PrivateKey: cr.other.PrivateKey, Leaf: cr.cert.Leaf}
+						}, nil)
+					}
+				}
 				if !v13 && cr.name == "ecdsa" {
 					// The attacker knows only the victim's certificate (public key): it claims a scheme without
 					// prehash (Ed25519) for the ECDSA certificate and sends a signature forged for the empty digest.
@@ -163,28 +190,52 @@ func scenarios(p *world.PKI) []scen {
 		other tls.Certificate
 	}
 	ccreds := []cliCred{{"ecdsa", p.ClientECDSA, p.ClientECDSA2}, {"rsa", p.ClientRSA, p.ClientECDSA}, {"ed25519", p.ClientEd25519, p.ClientECDSA}}
+	type polMode struct {
+		pol dtls.ClientAuthType
+		pin string // "" / "pin" / "connpin": the application pins the expected client leaf in a callback
+	}
+	var pms []polMode
+	for _, pol := range policies {
+		pms = append(pms, polMode{pol, ""})
+	}
+	pms = append(pms, polMode{dtls.RequireAnyClientCert, "pin"}, polMode{dtls.RequireAnyClientCert, "connpin"})
 	for _, v13 := range []bool{false, true} {
 		ver := "12"
 		cliFlight := "Flight 5"
 		if v13 {
 			ver = "13"
 		}
-		for _, pol := range policies {
+		for _, pm := range pms {
+			pol := pm.pol
 			for _, cr := range ccreds {
 				if v13 && cr.name != "ecdsa" {
 					continue
 				}
+				polName := pname[pol]
+				if pm.pin != "" {
+					polName += "+" + pm.pin
+				}
 				add := func(dev string, want verdict, mod func(c, s *world.Cfg), ed world.FlightEdit) {
 					c := v(world.Cfg{Cert: &cr.cert}, v13)
 					s := v(world.Cfg{ClientAuth: pol, SkipHelloVerify: v13}, v13)
+					switch pm.pin {
+					case "pin":
+						s.Extra = []dtls.Option{pinPeer(cr.cert.Certificate[0])}
+					case "connpin":
+						s.Extra = []dtls.Option{pinConn(cr.cert.Certificate[0])}
+					}
 					if mod != nil {
 						mod(&c, &s)
 					}
-					out = append(out, scen{name: fmt.Sprintf("%s/rogue-client/%s/policy=%s/%s", ver, cr.name, pname[pol], dev), v13: v13, rogueClient: true, c: c, s: s, editor: ed, want: want, devKind: dev})
+					out = append(out, scen{name: fmt.Sprintf("%s/rogue-client/%s/policy=%s/%s", ver, cr.name, polName, dev), v13: v13, rogueClient: true, c: c, s: s, editor: ed, want: want, devKind: dev})
 				}
 				requested := pol != dtls.NoClientCert
 				required := pol == dtls.RequireAnyClientCert || pol == dtls.RequireAndVerifyClientCert
-				verified := pol == dtls.VerifyClientCertIfGiven || pol == dtls.RequireAndVerifyClientCert
+				verified := pol == dtls.VerifyClientCertIfGiven || pol == dtls.RequireAndVerifyClientCert || pm.pin != ""
+				if pm.pin != "" {
+					// another valid identity than the pinned one, presented and proven correctly
+					add("other-identity", mustFail, func(c, s *world.Cfg) { c.Cert = &cr.other }, nil)
+				}
 				add("none(control)", mustComplete, nil, nil)
 				if cr.name == "ecdsa" {
 					w := mayComplete
@@ -237,12 +288,39 @@ func scenarios(p *world.PKI) []scen {
 						c.Cert = world.WithSigner(cr.cert, world.PublicOnlySigner{Pub: pub})
 					}, world.ClaimScheme(cliFlight, hash.Ed25519, signature.Ed25519, forged))
 				}
+				if cr.name == "ecdsa" {
+					add("certificate-list[victim-then-own]-signed-by-own-key", pop, func(c, s *world.Cfg) {
+						c.Cert = &tls.Certificate{Certificate: [][]byte{cr.cert.Certificate[0], cr.other.Certificate[0]}, PrivateKey: cr.other.PrivateKey, Leaf: cr.cert.Leaf}
+					}, nil)
+				}
 				add("certificateverify-corrupted", pop, func(c, s *world.Cfg) { c.Cert = world.WithSigner(cr.cert, world.FlipSigner{Signer: signerOf(cr.cert)}) }, nil)
-				add("certificateverify-over-stale-transcript", pop, func(c, s *world.Cfg) { c.Cert = world.WithSigner(cr.cert, world.StaleSigner{Signer: signerOf(cr.cert)}) }, nil)
+				add("certificateverify-over-stale-transcript", pop, func(c, s *world.Cfg) {
+					c.Cert = world.WithSigner(cr.cert, world.StaleSigner{Signer: signerOf(cr.cert)})
+				}, nil)
 			}
 		}
 	}
 	return out
+}
+
+var errPin = errors.New("verif: certificate is not the pinned one")
+
+func pinPeer(want []byte) dtls.Option {
+	return dtls.WithVerifyPeerCertificate(func(raw [][]byte, _ [][]*x509.Certificate) error {
+		if len(raw) == 0 || !bytes.Equal(raw[0], want) {
+			return errPin
+		}
+		return nil
+	})
+}
+
+func pinConn(want []byte) dtls.Option {
+	return dtls.WithVerifyConnection(func(st *dtls.State) error {
+		if len(st.PeerCertificates) == 0 || !bytes.Equal(st.PeerCertificates[0], want) {
+			return errPin
+		}
+		return nil
+	})
 }
 
 func orDefault(s string) string {
